@@ -110,9 +110,9 @@ func checkDet(prop, tier string, seed int64) int {
 	// design level: the model of import collisions and their resolution (Dedup.tla) explored over EVERY order of the map ranges;
 	// the invariant InvConfluent says all of them end on the same document (thorough tier: the exploration takes minutes)
 	if tier == "thorough" || os.Getenv("VERIF_DEDUP") != "" {
-		consts := map[string]string{"TKinds": `{"aux1", "recdep"}`, "HKinds": `{"prop", "alias", "nested"}`, "H2Kinds": `{"none", "code"}`,
+		consts := map[string]string{"TKinds": `{"aux1", "recdep"}`, "HKinds": `{"prop", "nested"}`, "H2Kinds": `{"none", "code"}`,
 			"CKinds": `{"exact", "twoimports"}`, "Export": "FALSE"}
-		mc, _, mcErr := runMC("MC_Dedup", consts, 90*time.Minute, nWorkers())
+		mc, _, mcErr := runMC("MC_Dedup", consts, 75*time.Minute, nWorkers())
 		if mcErr != nil || mc == nil || !mc.OK {
 			t := ""
 			if mc != nil {
